@@ -287,4 +287,18 @@ func init() {
 			{Pkg: "logger", Func: "HarnessC18_Prefix", Labels: []string{"prefix"}, Bound: "context kinds {nil, Cid() object, context.Context with id, context.Context without id} x {Println-style, Printf-style}; ids from {0,7,1000,-3}"},
 		},
 	})
+	reg(&propSpec{
+		ID:   "C17",
+		Rule: "Harness in harness/json/c17.go: JSON documents from 4 templates whose string contents (plain characters and escape sequences) and comment contents are symbolic bytes; comments placed in forked slots between tokens; forked read segmentation. The symbolic run asserts that the reader's output is the document with its comments removed; every counterexample is replayed natively through the property's real oracle (encoding/json on the undecorated text vs Unmarshal through the reader) and only a difference there is reported.",
+		Assumptions: append([]string{
+			"string characters are printable ASCII other than quote and backslash, or an escape \\X with X in \"\\/bfnrt; comment bodies are bytes >= 0x20 without their terminator",
+			"bufio.Scanner, bytes.Buffer and io.ReadAll are interpreted from source; bytes.Index is an engine intrinsic with the obvious semantics",
+			"documents longer than bufio.Scanner's 64 KiB token limit and other marker tables of NewCommentReader are outside the claim",
+		}, commonAssumptions...),
+		Harnesses: []harnessSpec{
+			{Pkg: "json", Func: "HarnessC17_Strip", Labels: []string{"strip-comment", "strip-plain"},
+				Bound:  "templates [S] (S up to 3 units), {S: S}, [S,S] (1 unit each), [literal]; 0-1 comment (line with/without final newline at end of input, or block; 0-2 symbolic content bytes) in any slot; reads: whole, 1 byte, one split inside or right after a comment marker",
+				BoundT: "0-2 comments with 0-3 content bytes; one split at every offset"},
+		},
+	})
 }
